@@ -42,7 +42,7 @@ C14_Terminates == Len(stack) <= Cardinality(Pairs)      \* the search can never 
 (* literal-only shapes and the alternatives the statement prescribes for them, per result position, in source order *)
 LiteralOnly == [lit1    |-> << <<"1">> >>,
                 lit2    |-> << <<"1", "2">> >>,
-                litops  |-> << <<"3", "\"ab\"">> >>,      \* return 1 + 2 ... (declared as any) ; return "a" + "b"
+                litops  |-> << <<"3", "\"ab\"", "-8">> >>,   \* return 1 + 2 ... (declared as any) ; return "a" + "b" ; return -(9 / 2) * 2 (integer division)
                 litbool |-> << <<"true", "false">> >>,
                 litpair |-> << <<"1", "2">>, <<"nil", "nil">> >>,
                 litoctal |-> << <<"420", "493">> >>]       \* return 0644 ... return 0755 (legacy octal spellings)
